@@ -60,7 +60,7 @@ seeded changes and which check catches which in §11.
   | U8 | `indentation::indent` | equals the spec function of C19 | C19, C04 |
   | U9 | `indentation::dedent` | removes exactly the margin the statement defines | C18, C04 |
   | U10 | `fill::fill_inplace` | same length; bytes change only `' '` → `'\\n'`, and exactly at the run ends first-fit makes of each line's ASCII words; `from_utf8(..).unwrap()` cannot fail | C17, C04 |
-  | U11 | `wrap::wrap`, `wrap_single_line`, `wrap_single_line_slow_path` | every line starts with its indent; **for the whole text** line k is `indent_k ++ text[a_k..b_k] ++ (nothing \| "-")` with slices in order, on char boundaries, separated only by spaces and at most one line ending; the line breaker gets the widths of the indents actually rendered (and a zero-width first fragment when the first line is the narrower one); >= 1 line per paragraph, earlier lines untouched; the shortcut's exact result, and (first-fit, built-in splitters) the slow path gives that same line when entered under the shortcut's condition | C08, C01, C02, C09, C05, C04 |
+  | U11 | `wrap::wrap`, `wrap_single_line`, `wrap_single_line_slow_path` | every line starts with its indent; **for the whole text** line k is `indent_k ++ text[a_k..b_k] ++ (nothing \| "-")` with slices in order, on char boundaries, separated only by spaces and at most one line ending; the line breaker gets the widths of the indents actually rendered (and a zero-width first fragment when the first line is the narrower one); >= 1 line per paragraph, earlier lines untouched; the shortcut's exact result, and (first-fit, built-in splitters) the slow path gives that same line when entered under the shortcut's condition; **`wrap` computes the paragraph-wise function `wrap_fn(split(text, E), options)`** (each of the three functions: the appended lines are a function of paragraph, options and "does it start the output"), with the relational clauses of C09 (independence of paragraphs, `wrap(b)` for empty indents, never fewer lines than paragraphs, LF↔CRLF) and C08 (what follows the indent depends on the indents' widths and emptiness only) as theorems over it | C08, C01, C02, C09, C05, C04 |
   | U12 | `fill::fill_slow_path`, `fill::fill` | both equal `wrap`'s lines joined by the line ending — shortcut included | C09, C05, C04 |
   | U13 | `word_separators::find_words_ascii_space` (closure, R16) | words are `Word::from(line[s0..s1])` at exactly the space→non-space boundaries; they tile the line | C11, C01, C17 |
   | U14 | `word_splitters::split_words` (closure, R16) | pieces cut exactly at the split points, hyphen penalty rule, whitespace/penalty on the last piece only; tiling | C12, C01 |
@@ -79,11 +79,12 @@ seeded changes and which check catches which in §11.
   convicted by Verus obligations on the pinned text *and* by BEC; F3 (C11) and F4 (C18) by BEC. Six further findings
   (KF1–KF6) are recorded as open known findings with reasons (§5).
 * **What stays bounded.** Optimality proper in C03 (needs real arithmetic and total monotonicity), the relational
-  statements (C09 independence, C13 end to end, C14, the round trip of C15/C16, agreement of `fill_inplace` with `wrap`,
-  C08's second sentence), the real
+  statements that compare runs on *different* inputs through more than the paragraph structure (C13 end to end, C14, the round
+  trip of C15/C16, agreement of `fill_inplace` with `wrap`) — C09's and C08's relational clauses are now theorems over
+  `wrap`'s functional postcondition (U11) —, the real
   tables of `unicode-linebreak` / `unicode-width` / `smawk` behind the assumed shapes.
 * **Robustness of the machinery** (§8, §11): 148 seeded property-breaking changes that compile and pass the upstream suite
-  (5 reverted fixes + 128 from independent sub-agents in eight waves) are all reported; 25 behaviour-preserving refactors
+  (5 reverted fixes + 143 from independent sub-agents in nine waves) are all reported; 25 + 12 behaviour-preserving refactors
   raise no alarm; every unit verifies under 8 different SMT seeds; the unchanged tree passes all 20 checks in both tiers.
 """)
 w(s1.rstrip()+"\n")
@@ -199,6 +200,7 @@ restatement and callee would show up there within scope.
 | U11, U13, U20 `vx_word_from` / `word_from_post` | U6 `Word::from` | the five clauses of U6, or a subset |
 | U11 `vx_wrap_algorithm_wrap`: ordered partition | U17 `WrapAlgorithm::wrap` → U1, U2 (`partition`) | same four clauses (`runs_concat` and `concat_lines` are the same fold) |
 | U10 `vx_ascii_find_words_collect`, `vx_wrap_first_fit_1` | U13, U1 | same clauses, plus "the result is a function of the argument" (purity) |
+| U11 all five word-stage callees: `r == f(args)` with `f` uninterpreted (`fw_spec`, `sw_spec`, `bw_spec`, `wf_spec`, `wa_spec`) | U13/U20, U14, U6/U15, U6, U17/U1/U2 | not a clause of the providers: determinism of safe, state-free Rust (A17); for U13, U20, U16+U14, U15 and U1 the proved contracts determine the result uniquely; `wa_spec(..).len() >= 1` restates C06 |
 | U14 `vx_split_points_iter`: increasing char boundaries inside the word | U16 `split_points` | proved for the two built-in splitters; `Custom`: A15 |
 | U12 `wrap_shortcut_line` | U11 `wrap` (clause tagged C05 C09) | same predicate `wrap_shortcut_applies`, same conclusion, in bytes |
 | U15, U20 `vx_skip_ansi_ci` | U3 `skip_ansi_escape_sequence` (any iterator obeying the iterator laws) | instance at `Map<&mut CharIndices, _>` (A4: `map`/`by_ref` only project / borrow) |
@@ -277,14 +279,15 @@ still a VIOLATION):
 
 ## 6. Applicability statement
 
-Levels claimed in MANIFEST: `proof` — C06, C07, C10, C11, C12, C18, C19, C20 (every clause of the statement is a discharged Verus
-obligation or loop-free Kani fact, under the named assumptions); `other` — C01, C02, C03, C04, C05, C08, C09,
+Levels claimed in MANIFEST: `proof` — C06, C07, C08, C09, C10, C11, C12, C18, C19, C20 (every clause of the statement is a discharged Verus
+obligation or loop-free Kani fact, under the named assumptions); `other` — C01, C02, C03, C04, C05,
 C13, C15, C16, C17 (named functions proved for all inputs, named remainder bounded); `exploration` — C14: the deductive
 technique does not apply (relational over two calls of `fill`; no contract within reach expresses it); it is claimed only
 through its bounded executable contract, labelled bounded. `not_applicable` in MANIFEST is empty because every property
 has a check; a reader who counts only deductive results should read C14 as not applicable. Reasons for every bounded remainder are the
 measured ones of §1: Kani cannot finish a 3-byte string or a 3-fragment optimal-fit; optimality needs real arithmetic;
-relational properties need a full functional specification of `fill`; Verus has no float theory.
+relational properties need a functional specification (done for `wrap` in U11, which gives C09 and C08; `fill`'s idempotence and the
+unfill/refill round trips would need the inverse direction as well); Verus has no float theory.
 Creusot, Prusti and Aeneas are not installed; nothing here depends on them.
 
 ## 7. Design-round prototypes
